@@ -164,12 +164,17 @@ def enc_pyqueue(groups_front_first):
             for g in groups_front_first]
 
 
+def _fresh(o):
+    """an equal int that is a different object whenever CPython allows (owners are compared by value)"""
+    return int(str(o)) if isinstance(o, int) else o
+
+
 def run_regq(reqs, ops):
     ra = M("reg_access")
     ty = {"R": ra.AccessType.READ, "W": ra.AccessType.WRITE}
     b = ra.RegAccQBuilder()
     for t, o in reqs:
-        b.append(ty[t], o)
+        b.append(ty[t], _fresh(o))
     q0 = enc_pyqueue(list(b._queue))                      # builder keeps registration order
     q = b.create()
     outs = []
@@ -180,12 +185,12 @@ def run_regq(reqs, ops):
             continue
         if op[0] == "can":
             try:
-                outs.append(bool(q.can_access(ty[op[1]], op[2])))
+                outs.append(bool(q.can_access(ty[op[1]], _fresh(op[2]))))
             except IndexError:
                 outs.append(Sym("IndexError"))
         else:
             try:
-                q.dequeue(op[1])
+                q.dequeue(_fresh(op[1]))
                 outs.append(Sym("ok"))
             except (KeyError, IndexError) as e:
                 outs.append(Sym(type(e).__name__))
